@@ -341,3 +341,6 @@ def r2_sole_constructors(ctx):
 def check(ctx):
     r1_limited_collect(ctx)
     r2_sole_constructors(ctx)
+
+
+CLAUSE += '; the bytes of every BufferedBody construction derive from a read of the body'
